@@ -46,6 +46,7 @@ func runC04(w *World, r *Report) {
 	c04NullDeletes(w, r)
 	c04NoMutation(w, r, "C04/NO-MUTATION", nil)
 	c04MultiDoc(w, r)
+	c04ChildSection(w, r)
 }
 
 func c04FlagOrder(w *World, r *Report) {
@@ -980,4 +981,48 @@ func flagTable(fn *ssa.Function, acc map[ssa.Value]bool) map[string]flagTableEnt
 		}
 	}
 	return out
+}
+
+// c04ChildSection: whether a key of the values names a subchart's section is decided from the charts
+// that are actually loaded below the parent (declared or not): "not a child" is answered only after
+// they were looked at. A section wrongly taken for plain values has its nulls consumed one level too early.
+func c04ChildSection(w *World, r *Report) {
+	r.Rule("C04/CHILD-SECTION", "the test whether a values key is a subchart's section answers anything but a constant true only after scanning the parent's loaded dependencies", 1)
+	fn := w.Fn("pkg/chart/v2/util", "childChartMergeTrue")
+	if fn == nil {
+		r.Unk("C04/CHILD-SECTION", "anchor", "-", "childChartMergeTrue not found")
+		return
+	}
+	r.Fn(FuncName(fn))
+	g := FullGraph(fn)
+	var scans []ssa.Instruction
+	for _, f := range withAnon(fn) {
+		if f != fn {
+			continue
+		}
+		for _, c := range callInstrs(f) {
+			if cf, _ := calleeOf(c.Common()); cf != nil && FuncName(cf) == "(*pkg/chart/v2.Chart).Dependencies" {
+				scans = append(scans, c)
+			}
+		}
+	}
+	n := 0
+	for _, b := range fn.Blocks {
+		if len(b.Instrs) == 0 || !g.Reachable()[b] {
+			continue
+		}
+		ret, ok := b.Instrs[len(b.Instrs)-1].(*ssa.Return)
+		if !ok || len(ret.Results) != 1 {
+			continue
+		}
+		if cb, isC := constBool(ret.Results[0]); isC && cb {
+			continue
+		}
+		n++
+		ex, _ := g.PathExists(entryPos(fn), posOf(ret), avoidInstrs(scans...))
+		r.Check(!ex && len(scans) > 0, "C04/CHILD-SECTION", fmt.Sprintf("return#%d", n), w.InstrPos(ret), "answered after looking at the loaded dependencies", "the key can be declared 'not a subchart section' without looking at the loaded dependencies (Chart.Dependencies()): for a subchart that is loaded but not matched by that shortcut, a null in the user's values is consumed while merging the parent's section and the subchart's default comes back")
+	}
+	if n == 0 {
+		r.Unk("C04/CHILD-SECTION", "no-return", w.Pos(fn.Pos()), "no non-constant answer found")
+	}
 }
